@@ -318,21 +318,16 @@ def writeRow (f : CsvFmt) (geo : Bool) (pf : List Tok) (O : List (Int × Nat)) (
   let a := afs.foldl (fun acc v => acc ++ [f.sep] ++ intStr v) []
   printInOrder x y z t a O f.sep
 
-/-- `fmt.header` as `writeToFile` sees it: the function stores its `h` argument in `fmt.h` and then tests
-`fmt.header`, which keeps the value 0 of `TrackFormat({'ext': 'CSV'})`: on this tree the header block below
-is never written (known finding `csv-header-not-written`). If the writer is repaired (`fmt.header = h`,
-`fmt.cmt`, `fmt.time_ini`) this becomes `h` and nothing else changes in the model. -/
-def hdrEff (_h : Nat) : Nat := 0
-
 /-- header names of the coordinate columns by `track.getSRID().upper()` -/
 def hdrNames (srid : Str) : Str × Str × Str :=
   if srid = "GEO".toList then ("lon".toList, "lat".toList, "h".toList)
   else if srid = "ECEF".toList then ("X".toList, "Y".toList, "Z".toList)
   else ("E".toList, "N".toList, "U".toList)
 
-/-- the header block of `writeToFile` (`fmt.header > 0`): srid line (`track.getSRID()` is `ENU`, `Geo` or
-`ECEF`), reference point (`None` for a track without base), column names in column order, each line starting
-with the comment character `#` -/
+/-- the header block of `writeToFile` (`fmt.header > 0`, where `fmt.header = h`): srid line (`track.getSRID()` is
+`ENU`, `Geo` or `ECEF`), reference point (`None` for a track without base), no `Reference epoch` line
+(`fmt.time_ini` keeps the `-1` of `TrackFormat({'ext': 'CSV'})`), column names in column order followed by the
+feature names, each line starting with the comment character `fmt.cmt` = `#` -/
 def headerBlock (f : CsvFmt) (srid : Str) (names : List Str) (O : List (Int × Nat)) : Except String (List Str) := do
   let sridShown := if srid = "GEO".toList then "Geo".toList else srid
   let (a, b, c) := hdrNames srid
@@ -342,11 +337,12 @@ def headerBlock (f : CsvFmt) (srid : Str) (names : List Str) (O : List (Int × N
   pure ['#' :: ("srid: ".toList ++ sridShown), '#' :: "ref point: None".toList, '#' :: l3]
 
 /-- `TrackWriter.writeToFile(track, path, id_E, id_N, id_U, id_T, separator, h, af_names)`:
-the text of the file (`srid` = `track.getSRID().upper()`, `names` = `af_names`) -/
+the text of the file (`srid` = `track.getSRID().upper()`, `names` = `af_names`, `naf` their number). The header
+block is written for every `h > 0` and is the same whatever the positive value. -/
 def writeToFile (f : CsvFmt) (geo : Bool) (pf : List Tok) (h : Nat) (naf : Nat) (rows : List (Row × List Int))
     (srid : Str := "ENU".toList) (names : List Str := []) : Except String Str := do
   let O := orderList f naf
-  let hdr ← if hdrEff h > 0 then headerBlock f srid names O else pure []
+  let hdr ← if h > 0 then headerBlock f srid names O else pure []
   let ls ← rows.mapM (fun ra => writeRow f geo pf O ra.1 ra.2)
   pure ((hdr ++ ls).map (· ++ ['\n'])).flatten
 
@@ -554,11 +550,11 @@ def nodesOf (es : List REdge) : List (Str × (Dec × Dec × Dec)) :=
     let last := e.geom.getLast?.getD ((0,0),(0,0),(0,0))
     addNode (addNode acc e.src first) e.tgt last) []
 
-/-- `NetworkReader.readFromFile`: the header loop consumes `max 1 header` records (it breaks only
-after having read one), the remaining records become edges -/
+/-- `NetworkReader.readFromFile`: the header loop, entered only when `fmt.header > 0`, consumes `header`
+records (fewer when the file is shorter); the remaining records become edges -/
 def netRead (f : NetFmt) (text : Str) : Except String (List REdge) := do
   let recs := (fileLines text).map (fun l => csvRecord f.sep (l.filter (fun c => c ≠ '\n' ∧ c ≠ '\r')))
-  let body := recs.drop (max 1 f.header)
+  let body := recs.drop f.header
   body.mapM (netReadRow f)
 
 /-! ### (f) GPX -/
